@@ -7,6 +7,26 @@ import os
 VERIF = os.path.dirname(os.path.dirname(os.path.abspath(__file__)))
 
 CLAIMS = {
+    "C01": dict(
+        category="other", design_ref="§5 U02/U03",
+        technique="Kani/CBMC inductive-step harnesses on seglog Writer::{append,sync,set_len} extracted verbatim over an arbitrary state satisfying the writer invariant (cursor alignment), against an in-memory disk / BufWriter model",
+        text="Bounded stand-in (scaled buffer constants, tiny records, ALL byte contents and ALL writer positions symbolic): from any state with file cursor + buffered bytes == write offset, append writes exactly length/checksum/header/data at the reported offset and publishes nothing; sync lands the buffered bytes at the cursor, calls sync_data, then publishes flushed == write offset; set_len lowers both offsets, writes the marker, keeps bytes below AND re-aligns the cursor (so a rejected/truncated append cannot displace later acknowledged ones). By induction the invariant holds after every history of these calls.",
+        note="PARTIAL: only the seglog layer. NOT decided: WriterSet::{handle_write,sync,rollover} and the sync_tx watermark / ack-after-fsync hand-off in the writer thread pool (the rollover watermark candidate of DESIGN §10 is not under contract), reads through the async reader pool, real kernel fsync semantics (sync_data is a model no-op counted for ordering only), reopen. Multi-step history harnesses ran CBMC out of memory and are not registered."),
+    "C17": dict(
+        category="other", design_ref="§5 U01/U02",
+        technique="Kani/CBMC on seglog parse_record extracted verbatim over every bit pattern of a 20-byte buffer (CRC modelled as a GF(2)-linear rolling hash), plus the writer's append-layout inductive step",
+        text="Bounded stand-in: parse_record never panics on any bytes; an Ok result satisfies the CRC gate over exactly the bytes returned and has the documented layout; every Err kind occurs only for its documented reason; a record whose checksum matches is never rejected; Writer::append lays out exactly length, checksum, header, data — so parse_record returns what append wrote (round trip by composition).",
+        note="PARTIAL and bounded (buffer 20 bytes, H = 1, scaled constants). ASSUMED: CRC-32 detects single-bit flips and bursts <= 32 bits in a message of unchanged length (the model hash has that property; a flip in the length field is detected with probability 1-2^-32 only); zstd round trip. NOT decided here: Reader::read_record random/sequential paths and Iter (the single-call relational harnesses against parse_record and the history harnesses exceeded CBMC's memory), Writer::open's recovery scan. The real-file replay driver U02 covers them only as counterexample search."),
+    "C18": dict(
+        category="other", design_ref="§5 U02",
+        technique="Kani/CBMC inductive-step harnesses on Writer::sync (flush, then sync_data, then publish) and Writer::set_len over arbitrary writer states; replay on real files",
+        text="Bounded stand-in for the WRITER half of C18: the flushed offset is only ever advanced to the write offset after the buffered bytes reached the file and sync_data was called; truncation lowers it and keeps bytes below intact; appends publish nothing. Hence no reader can be handed an offset whose bytes are not in the file.",
+        note="PARTIAL: the reader half (ReadAheadBuf provenance: cache hits confined to bytes that were below the flushed offset when fetched) could NOT be brought under a machine-checked contract in this build (Kani: out of memory on Vec-based buffer code even with 8-byte windows). It is exercised only by the real-file replay driver. Known finding: a long-lived reader's cache is not invalidated when already-flushed records are truncated (set_len below the flushed offset) — not reachable from sierradb, which only truncates unflushed tails."),
+    "C19": dict(
+        category="other", design_ref="§5 U02",
+        technique="Kani/CBMC inductive-step harness on Writer::append / prepare_data over arbitrary writer position and segment size",
+        text="Bounded stand-in: append returns SegmentFull exactly when write offset + 8 + H + stored length exceeds the segment size (stored length = data, or 4 + codec output when compression applies), otherwise succeeds at the old offset; a refused append changes neither offset.",
+        note="PARTIAL: the seglog layer only. NOT decided: the database's size estimate and rollover decision in Worker::handle_append_events (the estimate ignores compression expansion: candidate in DESIGN §10, not under contract), retry behaviour. zstd's output size is modelled as data + 1."),
     "C03": dict(
         category="proof", design_ref="§6 U15",
         technique="Verus contracts on SegmentIter::{new,is_finished,remaining_offsets,skip} extracted verbatim: forward scans visit offsets[idx..], reverse scans visit offsets[..=idx] backwards; replay through the real Database (scenario driver DB)",
